@@ -30,7 +30,7 @@ FLAGS_C04 = sorted(f for f, i in FLAG_INV.items() if i in INV_C04)
 
 def base(**kw):
     c = dict(NT=3, LevelsC={1, 2}, MaxT=4, NBr=1, PerBr=False, Type="stopping", IsMin=True, MRA=False, Ckpt=True, NThr=0,
-             Vals={0, 1, 2}, Costs={0}, Faults=False, MaxRun=2, SD="none", Myopic=False)
+             Vals={0, 1, 2}, Costs={0}, Faults=False, MaxRun=2, SD="none", Myopic=False, Completes=False)
     c.update(kw)
     return c
 
